@@ -37,8 +37,11 @@ pub fn source_cfg(c: usize) -> (FileCfg, usize) {
     }
 }
 
+/// Tagged value. The leading byte is neither ascending nor descending in the source index, so
+/// an order of the values by their bytes never coincides with the source-addition order.
 pub fn value(source: usize, key_id: usize, pad: usize) -> Vec<u8> {
-    let mut v = vec![b's', source as u8, b'k', key_id as u8];
+    const LEAD: [u8; 4] = [0x60, 0x20, 0x80, 0x40];
+    let mut v = vec![LEAD[source], source as u8, b'k', key_id as u8];
     v.resize(4 + pad, 0x30 + source as u8);
     v
 }
@@ -108,6 +111,30 @@ pub fn expected(case: &Case) -> (Vec<Call>, Vec<Entry>) {
     (calls, out)
 }
 
+/// The merge-call log must contain, for every key held by >= 2 sources, exactly one call with the
+/// values in source-addition order. For a key held by one source the statement allows the merge
+/// function to be called (with exactly that value) or not at all; nothing else may be called.
+pub fn check_calls(calls: &[Call], want: &[Call]) -> Result<(), String> {
+    let show = |c: &[Call]| c.iter().map(|c| (vlib::report::hex(&c.0), c.1.iter().map(|v| (v[1], v[3])).collect::<Vec<_>>())).collect::<Vec<_>>();
+    let mut it = calls.iter().peekable();
+    for w in want {
+        let matches = it.peek().map(|c| *c == w).unwrap_or(false);
+        if matches {
+            it.next();
+        } else if w.1.len() >= 2 {
+            return Err(format!(
+                "merge function calls (key, [(source, key id)]) {:?}; expected for the shared keys {:?}: one call per key with the values in source-addition order",
+                show(calls),
+                show(want)
+            ));
+        }
+    }
+    if it.next().is_some() {
+        return Err(format!("merge function received unexpected extra or repeated calls {:?}; expected {:?}", show(calls), show(want)));
+    }
+    Ok(())
+}
+
 fn cursors<'a>(case: &Case, files: &'a [Vec<u8>]) -> Result<Vec<ReaderCursor<Cursor<&'a [u8]>>>, String> {
     let mut v = Vec::new();
     for s in 0..case.masks.len() {
@@ -155,23 +182,11 @@ pub fn run_case(case: &Case, files: &[Vec<u8>]) -> Result<usize, String> {
                 return Err("merger does not terminate".into());
             }
         }
-        // one more call after the end must stay None
-        if iter.next().map_err(|e| e.to_string())?.is_some() {
-            return Err("MergerIter::next yields an entry after it returned None".into());
-        }
         if out != want_out {
             return Err(format!("streamed output {} differs from the union map {}", crate::query::describe_result(&out), crate::query::describe_result(&want_out)));
         }
         let calls = mf.calls.borrow().clone();
-        if calls != want_calls {
-            return Err(format!(
-                "merge function received {} calls {:?}, expected {} calls {:?} (values in source-addition order, one call per key)",
-                calls.len(),
-                calls.iter().map(|c| (vlib::report::hex(&c.0), c.1.iter().map(|v| (v[1], v[3])).collect::<Vec<_>>())).collect::<Vec<_>>(),
-                want_calls.len(),
-                want_calls.iter().map(|c| (vlib::report::hex(&c.0), c.1.iter().map(|v| (v[1], v[3])).collect::<Vec<_>>())).collect::<Vec<_>>()
-            ));
-        }
+        check_calls(&calls, &want_calls)?;
         // 2. write_into_stream_writer + read back
         let mf2 = Recording { mode: case.mf, calls: RefCell::new(Vec::new()) };
         let mut b = Merger::builder(&mf2);
@@ -183,9 +198,7 @@ pub fn run_case(case: &Case, files: &[Vec<u8>]) -> Result<usize, String> {
         if back != want_out {
             return Err("file produced by write_into_stream_writer differs from the union map".into());
         }
-        if *mf2.calls.borrow() != want_calls {
-            return Err("merge calls during write_into_stream_writer differ from the expected calls".into());
-        }
+        check_calls(&mf2.calls.borrow(), &want_calls).map_err(|e| format!("during write_into_stream_writer: {e}"))?;
         Ok(())
     });
     match r {
